@@ -151,7 +151,7 @@ partial def parsePipe (env : Env) : Sexp → Option Obsv
   | .list [.atom "just", v] => (parseData v).map oJust
   | .list (.atom "from_iter" :: vs) => (vs.mapM parseData).map oFromIter
   | .list (.atom "from_iter_lazy" :: vs) => (vs.mapM parseData).map oFromIter   -- (the iterator's kind is not modelled)
-  | .list [.atom "range", a, n] => do some (oRange (← a.asInt) (← n.asNat))
+  | .list [.atom "range", a, n] => do some (oRange (← a.asInt) (← n.asInt).toNat)   -- `initial..initial+count`: empty for count ≤ 0
   | .list [.atom "empty"] => some oEmpty
   | .list [.atom "never"] => some oNever
   | .list [.atom "error", e] => e.asNat.map oError
